@@ -63,8 +63,8 @@ func runC02(r *Run) {
 		kinds: allStackKinds, strategies: []string{"simple", "precise", "lookup", "predicate"},
 		maxClients: scale(6, 8), arrivals: []time.Duration{0, ms, 2 * ms, 3 * ms}, holds: []time.Duration{0, ms, 2 * ms, time.Second},
 		qTimeouts: []time.Duration{ms, 2 * ms, 3 * ms, time.Second, -1}, bTimeouts: []time.Duration{0, ms, time.Hour},
-		sharedCtxPct: 20,
-		deadlines:    []time.Duration{2 * ms, 5 * ms, time.Hour}, cancelPct: 30, cancelOnReleasePct: 35, cancelTimes: []time.Duration{0, ms, 2 * ms, 3 * ms},
+		sharedCtxPct: 20, prePumpPct: 30,
+		deadlines: []time.Duration{2 * ms, 5 * ms, time.Hour}, cancelPct: 30, cancelOnReleasePct: 35, cancelTimes: []time.Duration{0, ms, 2 * ms, 3 * ms},
 		ctxDeadlinePct: 15, ctxDeadlines: []time.Duration{ms / 2, ms + ms/2, 2*ms + ms/2, 700 * ms}, // caller contexts with their own deadline (some already expired on arrival), off the 1 ms grid
 		backlogs: []int{1, 2, 4}, limits: []int{1, 2, 3}, relTimes: []time.Duration{0, ms, 2 * ms, 3 * ms},
 	})
@@ -129,7 +129,7 @@ func runC12(r *Run) {
 	sc := drawScen(r, scenOpts{
 		kinds: []string{"queue", "queue", "queue", "lifo-ctor", "fifo-ctor", "pool", "fixedpool"}, strategies: []string{"simple", "precise"},
 		maxClients: scale(7, 9), arrivals: []time.Duration{0, 0, ms, 2 * ms}, holds: []time.Duration{0, ms, 2 * ms},
-		qTimeouts: []time.Duration{ms, 2 * ms, 3 * ms, time.Second, -1}, bTimeouts: []time.Duration{time.Second}, // -1: no backlog timeout
+		qTimeouts: []time.Duration{ms, 2 * ms, 3 * ms, time.Second, -1, 1}, bTimeouts: []time.Duration{time.Second}, // -1: no backlog timeout; 1 ns: used up almost at once
 		sharedCtxPct: 20,
 		cancelPct:    25, cancelOnReleasePct: 35, cancelTimes: []time.Duration{ms, 2 * ms, 3 * ms},
 		ctxDeadlinePct: 15, ctxDeadlines: []time.Duration{ms / 2, ms + ms/2, 2*ms + ms/2, 700 * ms},
@@ -140,6 +140,10 @@ func runC12(r *Run) {
 		return
 	}
 	s := sc.s
+	// F-lag in a quarter of the runs: a caller parked mid-operation while time passes. The backlog invariants do not
+	// depend on instants; the solo-operation model below does (a lagging caller may use up its timeout without ever
+	// being seen blocked) and is only evaluated in the lag-free runs.
+	s.LagPct = []int{0, 0, 0, 10}[r.T.Intn(4, "lag-pct")]
 	maxB := effBacklog(sc.cfg.Backlog)
 	sc.start()
 	s.OnCall = func(t *Task, op *OpRec) {
@@ -199,7 +203,7 @@ func runC12(r *Run) {
 		// solo operations must follow the sequential model
 		for _, cl := range sc.clients {
 			op := cl.acq
-			if op == nil || !op.settled || checked[op] {
+			if op == nil || !op.settled || checked[op] || s.LagPct > 0 {
 				continue
 			}
 			checked[op] = true
